@@ -52,6 +52,9 @@ def histories(tier):
     # the other stepping requests: run-steps (2 steps) and a stream the client abandons after its first step
     out += [["steps2", "none"], ["set_k", "steps2", "none"], ["stream_abort", "none"], ["none", "stream_abort", "none"],
             ["set_k", "stream_abort", "set_c", "none"], ["stream_abort", "steps2", "none"]]
+    # a second session begun on the same instance (the first one is ended by it)
+    out += [["none", "rebegin", "none"], ["none", "none", "rebegin", "none"], ["set_k", "none", "rebegin", "none", "none"],
+            ["set_k", "rebegin", "set_c", "none"]]
     return out
 
 
@@ -69,6 +72,10 @@ def body(r):
 def step_request(c, inst, i, kind, mode, env):
     if kind == "none":
         return c.post("/%s/run-step" % inst)
+    if kind == "rebegin":
+        r = c.post("/%s/begin-session" % inst, data=json.dumps({"scenario_managers": ["sm"], "scenarios": ["A"], "equations": scen.EQS}),
+                   content_type="application/json")
+        return _Resp(r.status_code, "session begun")
     if kind == "steps2":
         r = c.post("/%s/run-steps" % inst, data=json.dumps({"numberSteps": 2, "settings": {}}), content_type="application/json")
         if r.status_code != 200:
@@ -120,9 +127,7 @@ def run_case(hist, k, mode, env=None, two_instances=False, start=START):
         other = begin(c1) if two_instances else None
         if other:
             c1.post("/%s/run-step" % other)
-        if k == 0:
-            # nothing was externalised by a step yet: the client saves explicitly (as a deployment would at shutdown)
-            c1.get("/save-state")
+        # (k == 0: the crash comes right after begin-session, which externalises the session itself)
         for i in range(k):
             step_request(c1, inst, i, hist[i], mode, env)
         del app1, c1                                   # the crash: the process state is gone, the directory stays
@@ -352,7 +357,7 @@ def run(tier):
         samples.append({"damaged_file": kind, "server_survives": r is None})
     rep.assume("crash = the server object is discarded between two requests and a new BptkServer is constructed on the same FileAdapter directory (plain mode)",
                "torn writes are modelled by outcome classes of the state file (%s); byte-exact truncation points are inside the C JSON decoder" % ", ".join(DAMAGE),
-               "histories <= %d requests, each a run-step with a constant setting (k or c) or without settings, a run-steps of 2 steps, or a stream-steps the client abandons after the first step; every crash point 0..N" % (3 if tier == "quick" else 4))
+               "histories <= %d requests, each a run-step with a constant setting (k or c) or without settings, a run-steps of 2 steps, a stream-steps the client abandons after the first step, or a second begin-session on the instance; every crash point 0..N" % (3 if tier == "quick" else 4))
     rep.coverage.update({"states": len(tasks) + dmg, "transitions": max(1, counts["holds"]), "traces_validated_against_impl": len(rep.cands),
                          "samples": samples, "verdicts": counts, "exhaustive": True,
                          "explanation": "states = (session history, crash point) pairs + damaged-file classes",
